@@ -113,3 +113,106 @@ func snapValue(sb *strings.Builder, v reflect.Value, depth int) {
 		sb.WriteString(fmt.Sprintf("<%s>", v.Kind()))
 	}
 }
+
+// FlipBytes inverts, in place, every byte of every []byte reachable from the generated struct
+// (bytes fields in singular, repeated, oneof and map-value position, unknownFields, recursively).
+// It returns the number of bytes flipped.
+func FlipBytes(p proto.Message) int {
+	return flipValue(reflect.ValueOf(p), 0)
+}
+
+func flipValue(v reflect.Value, depth int) int {
+	if depth > 64 {
+		return 0
+	}
+	n := 0
+	switch v.Kind() {
+	case reflect.Ptr, reflect.Interface:
+		if !v.IsNil() {
+			n += flipValue(v.Elem(), depth+1)
+		}
+	case reflect.Struct:
+		t := v.Type()
+		for i := 0; i < t.NumField(); i++ {
+			f := t.Field(i)
+			fv := v.Field(i)
+			if f.PkgPath != "" {
+				if f.Name != "unknownFields" || !fv.CanAddr() {
+					continue
+				}
+				fv = reflect.NewAt(f.Type, unsafe.Pointer(fv.UnsafeAddr())).Elem()
+			}
+			n += flipValue(fv, depth+1)
+		}
+	case reflect.Slice:
+		if v.Type().Elem().Kind() == reflect.Uint8 {
+			b := v.Bytes()
+			for i := range b {
+				b[i] ^= 0xff
+			}
+			return len(b)
+		}
+		for i := 0; i < v.Len(); i++ {
+			n += flipValue(v.Index(i), depth+1)
+		}
+	case reflect.Map:
+		it := v.MapRange()
+		for it.Next() {
+			n += flipValue(it.Value(), depth+1)
+		}
+	}
+	return n
+}
+
+// EmptyNotNil replaces every nil slice, nil map and nil []byte field of the struct (recursively through
+// populated message pointers) by an allocated empty one; returns how many it replaced. oneof
+// interfaces and message pointers are left alone.
+func EmptyNotNil(p proto.Message) int {
+	return emptyValue(reflect.ValueOf(p), 0)
+}
+
+func emptyValue(v reflect.Value, depth int) int {
+	if depth > 64 {
+		return 0
+	}
+	n := 0
+	switch v.Kind() {
+	case reflect.Ptr, reflect.Interface:
+		if !v.IsNil() {
+			n += emptyValue(v.Elem(), depth+1)
+		}
+	case reflect.Struct:
+		t := v.Type()
+		for i := 0; i < t.NumField(); i++ {
+			f := t.Field(i)
+			if f.PkgPath != "" {
+				continue
+			}
+			fv := v.Field(i)
+			switch fv.Kind() {
+			case reflect.Slice:
+				if fv.IsNil() && fv.CanSet() {
+					fv.Set(reflect.MakeSlice(fv.Type(), 0, 0))
+					n++
+				} else {
+					for j := 0; j < fv.Len(); j++ {
+						n += emptyValue(fv.Index(j), depth+1)
+					}
+				}
+			case reflect.Map:
+				if fv.IsNil() && fv.CanSet() {
+					fv.Set(reflect.MakeMap(fv.Type()))
+					n++
+				} else {
+					it := fv.MapRange()
+					for it.Next() {
+						n += emptyValue(it.Value(), depth+1)
+					}
+				}
+			default:
+				n += emptyValue(fv, depth+1)
+			}
+		}
+	}
+	return n
+}
